@@ -66,8 +66,10 @@ class Ctx:
         return not self.broken
 
     def audit(self, module, namespace, expected):
-        """list theorems of `namespace` (in `module`) with their axioms; compare with `expected` names"""
-        p = subprocess.run(["lake", "env", "lean", "--run", "Audit.lean", module, namespace],
+        """axioms of every expected theorem (names relative to `namespace` unless they contain a dot)"""
+        full = [(n if "." in n else namespace + "." + n) for n in expected]
+        full = [(n if n.startswith("Arp.") else "Arp." + n) for n in full]
+        p = subprocess.run(["lake", "env", "lean", "--run", "Audit.lean", module] + full,
                            cwd=run.LEAN, capture_output=True, text=True)
         found = {}
         if p.returncode == 0:
@@ -78,19 +80,15 @@ class Ctx:
         else:
             self.broken.append({"what": "audit of %s failed" % module, "log": (p.stdout + p.stderr)[-3000:]})
         allowed = {"propext", "Classical.choice", "Quot.sound"}
-        for name in expected:
-            full = namespace + "." + name
-            if full not in found:
-                self.obligations.append((full, False, ["<missing>"]))
-                self.broken.append({"what": "theorem %s missing / did not elaborate" % full})
+        for name in full:
+            if name not in found:
+                self.obligations.append((name, False, ["<missing>"]))
+                self.broken.append({"what": "theorem %s missing / did not elaborate" % name})
             else:
-                ok = set(found[full]) <= allowed
-                self.obligations.append((full, ok, found[full]))
+                ok = set(found[name]) <= allowed
+                self.obligations.append((name, ok, found[name]))
                 if not ok:
-                    self.broken.append({"what": "theorem %s depends on disallowed axioms %s" % (full, found[full])})
-        extra = sorted(set(found) - {namespace + "." + n for n in expected})
-        if extra:
-            self.notes.append("theorems present but not listed as obligations: " + ", ".join(extra))
+                    self.broken.append({"what": "theorem %s depends on disallowed axioms %s" % (name, found[name])})
         # source hygiene
         g = subprocess.run("grep -rnE 'sorry|admit|^axiom |native_decide|bv_decide|implemented_by|unsafe |maxHeartbeats 0' Arp Driver.lean | grep -v -- '--' || true",
                            cwd=run.LEAN, shell=True, capture_output=True, text=True)
